@@ -33,6 +33,35 @@ def main(tier, seed, replay):
     cases = envcheck.run_harness(ck, "env", runs)
     if cases is None:
         return ck.finish()
+    # a failing random source (nonce-sized reads fail during three encrypts): an Encrypt that still returns a record must not
+    # carry a degenerate nonce, and no (intermediate key, nonce) pair may repeat; afterwards the session must work again
+    if not replay or "randfault" in replay:
+        rcases = envcheck.run_harness(ck, "randfault", [["-n", "4"]])
+        if rcases is None:
+            return ck.finish()
+        ck.cov["random_source_fault_cases"] = len(rcases)
+        for rc_ in rcases:
+            what = list(rc_.get("viol") or [])
+            seen = set()
+            for o in rc_["outcomes"]:
+                if o["r"] != "enc":
+                    continue
+                for which in ("data_nonce", "key_nonce"):
+                    if o.get(which) and set(o[which]) == {"0"}:
+                        what.append("Encrypt returned a record sealed with an all-zero %s while the random source was failing" % which.replace("_", " "))
+                kn = (o.get("ik"), o.get("ikc"), o.get("key_nonce"))
+                if kn in seen:
+                    what.append("the same (intermediate key, nonce) pair wrapped two data keys: %s" % (kn,))
+                seen.add(kn)
+            if rc_["hits"] == 0:   # the injection had no effect (nonces no longer drawn through crypto/rand.Reader): nothing to judge
+                ck.cov["random_source_fault_ineffective"] = ck.cov.get("random_source_fault_ineffective", 0) + 1
+            if rc_["after"] != "ok":
+                what.append("after the random source recovered the session does not work: " + rc_["after"])
+            if what:
+                ck.violation(ck.replay_file("randfault", {"what": what, "Case": rc_}))
+                break
+        if replay:
+            return ck.finish()
     # the key hierarchy under concurrency: goroutines of several partitions sharing the factory's caches (controlled schedules)
     if not replay:
         conccheck.run(ck, "keycache", tier, seed, None, n_quick=80, n_thorough=800, only="[hierarchy]")
